@@ -611,6 +611,23 @@ def path_maze_set(name, tier):
             ps += [p for p in R.simple_paths(adj, (1, 1), 9) if len(p) == 9]
             out += [S(3, 3, b, p) for p in (ps[3::16] if quick else ps[::3])]
         return list(dict.fromkeys(out))
+    if name == "s33same":
+        # one stored solution, many mazes: every (quick: every 4th) graph that contains the path, in both orders - the path region depends
+        # on the walls around the path (fork points), not only on the path
+        out = []
+        for path in ([(0, 0), (0, 1), (1, 1), (2, 1), (2, 2)], [(2, 0), (1, 0), (0, 0), (0, 1), (0, 2)]):
+            need = bits_of_edges(3, 3, list(zip(path, path[1:])))
+            free = [k for k in range(12) if not (need >> k) & 1]
+            sup = []
+            for mask in range(1 << len(free)):
+                b = need
+                for i, k in enumerate(free):
+                    if (mask >> i) & 1:
+                        b |= 1 << k
+                sup.append(b)
+            sup = sup[::4] if quick else sup
+            out += [S(3, 3, b, path) for b in sup] + [S(3, 3, b, path) for b in reversed(sup)]
+        return out
     if name == "s11":
         bits, snake, short = structured(11)
         if quick:
@@ -982,6 +999,8 @@ def plan(tier):
         T_.append(dict(sweep="path", mazes="s11", progs=pr))
     for pr in chunks(nP, 24 if quick else 96):
         T_.append(dict(sweep="path", mazes="s33", progs=pr))
+    for pr in chunks(nP, 16):
+        T_.append(dict(sweep="path", mazes="s33same", progs=pr, coords=[0] if quick else [0, 1, 8]))
     for pr in chunks(nP, 8):
         T_.append(dict(sweep="path", mazes="corr17", progs=pr, coords=[0, 1], **(dict(only_size="Forks") if quick else {})))
     # 2. input sweep with the pairwise-covering full tokenizers
